@@ -406,6 +406,8 @@ pub struct Stats {
     pub avoided: u64,
     pub nontrivial: HashSet<u64>,
     pub classes: BTreeMap<String, u64>,
+    /// discarded cases per class (a deterministic family that is discarded wholesale tests nothing)
+    pub discarded_classes: BTreeMap<String, u64>,
     pub samples: BTreeMap<String, Vec<String>>,
     pub known_hits: BTreeMap<String, u64>,
 }
@@ -418,6 +420,9 @@ impl Stats {
         self.nontrivial.extend(o.nontrivial);
         for (k, v) in o.classes {
             *self.classes.entry(k).or_default() += v;
+        }
+        for (k, v) in o.discarded_classes {
+            *self.discarded_classes.entry(k).or_default() += v;
         }
         for (k, v) in o.samples {
             let e = self.samples.entry(k).or_default();
@@ -434,6 +439,9 @@ impl Stats {
     pub fn absorb(&mut self, check: &str, r: &CaseReport) {
         if r.discarded {
             self.discarded += 1;
+            for c in &r.classes {
+                *self.discarded_classes.entry(format!("{check}/{c}")).or_default() += 1;
+            }
             return;
         }
         self.evaluations += 1;
@@ -973,6 +981,7 @@ pub fn finish(ctx: &RunCtx) -> i32 {
             "exhaustive_spaces": *exhaustive,
             "class_histogram": stats.classes,
             "discarded_cases": stats.discarded,
+            "discarded_by_class": stats.discarded_classes,
             "excluded_by_avoidance_switches": stats.avoided,
             "known_finding_hits": known_list,
             "notes": *ctx.notes.lock().unwrap(),
